@@ -22,8 +22,9 @@ class Inconclusive(Exception):
 
 
 class Lifter:
-    def __init__(self, d, K=10, summary=None, name='', intbits=True):
+    def __init__(self, d, K=10, summary=None, name='', intbits=True, prescan=True):
         self.intbits = intbits
+        self.prescan = prescan
         self.d = d
         self.P = int(d['Field'])
         self.K = K
@@ -42,6 +43,7 @@ class Lifter:
         self.nbits = []          # (input LE, [output LEs]) per bits.NBits hint
         self.invzero = []        # (input LE, output LE)
         self.sumcalls = []       # (summary record, [input LEs], [output atom ids])
+        self.sum_conditions = [] # (name, fn(used)->z3 Bool): acceptance conditions of summarised gadgets (assumed in soundness, proven in completeness)
         self.in_atoms = {}       # wire -> atom id
         self.aux = 0
         self.stats = {'fn': 0, 'fm': 0, 'case': 0, 'quot': 0}
@@ -62,6 +64,8 @@ class Lifter:
         """wires w with a constraint w*(1-w)=0: typed boolean from the start."""
         P = self.P
         self.boolwires = {}
+        if not self.prescan:
+            return
         for ci, c in enumerate(self.cons):
             if len(c['L']) == 1 and len(c['O']) == 0 and len(c['R']) == 2:
                 (cl, wl), = c['L']
@@ -86,7 +90,7 @@ class Lifter:
         if wire in self.boolwires and self.intbits:
             zi = z3.Int('b_%s%s' % (self.tag, name))
             self.atoms.append({'kind': 'B', 'name': name, 'z': zi == 1, 'zi': zi, 'sym': str(zi), 'wire': wire, 'typed_by': self.boolwires[wire]})
-            self.defs[str(zi)] = ([z3.Or(zi == 0, zi == 1)], set())
+            self.defs[str(zi)] = ([zi >= 0, zi <= 1], set())
         elif wire in self.boolwires:
             z = z3.Bool('b_%s%s' % (self.tag, name))
             self.atoms.append({'kind': 'B', 'name': name, 'z': z, 'zi': z3.If(z, 1, 0), 'sym': str(z), 'wire': wire, 'typed_by': self.boolwires[wire]})
@@ -540,7 +544,13 @@ class Lifter:
         lo = hi = 0
         terms = []
         for a, c in pl.items():
-            cs = c if c <= P // 2 else c - P
+            # representative: keep powers of two (bit recompositions) positive, their negations negative, else smallest magnitude
+            if c & (c - 1) == 0:
+                cs = c
+            elif (P - c) & (P - c - 1) == 0:
+                cs = c - P
+            else:
+                cs = c if c <= P // 2 else c - P
             if a == ONE:
                 lo += cs
                 hi += cs
